@@ -242,7 +242,9 @@ pub fn case(cx: &mut Case) -> CaseResult {
     }
     cx.label("mode: redemption time");
     let executable = cx.src.bool();
-    let g = gen_unit_program(cx, false, executable);
+    // one case in seven: a single witness whose type (exact widths, padded sums, equal-width
+    // arms) is pinned completely by the program, see c03::gen_pinned_witness_program
+    let g = if cx.src.chance(36) { super::c03::gen_pinned_witness_program(cx) } else { gen_unit_program(cx, false, executable) };
     let prog = &g.prog;
     label_kinds(cx, prog);
     let typed = type_check(prog, true).map_err(|e| harness_error(format!("generated IR rejected: {:?}; {}", e, prog.render())))?;
